@@ -16,6 +16,7 @@ func init() {
 	reg("C10_EmitNFTTransfer", C10_EmitNFTTransfer)
 	reg("C10_EmitMultiTransfer", C10_EmitMultiTransfer)
 	reg("C10_EmitMultiTransfer2X", C10_EmitMultiTransfer2X)
+	reg("C10T_ParserLedgerMultiSender2", C10T_ParserLedgerMultiSender2)
 	reg("C10_EmitESDTBurn", C10_EmitESDTBurn)
 	reg("C10_EmitCreateRoleTransfer", C10_EmitCreateRoleTransfer)
 	reg("C10_EmitSetUserName", C10_EmitSetUserName)
@@ -370,8 +371,20 @@ func C10_ParserLedgerMultiSender() {
 	o.NoCall = !verif.Thorough()
 	if !verif.Thorough() {
 		o.FullAmounts = false
+	} else {
+		o.MultiK = 1 // thorough: one item with every argument length and the attached call; two items below
 	}
-	o.Medium = true // thorough widens the attached call and the amount lengths, not every argument length
+	s := scnMultiTransfer(o)
+	parserLedger(s, vmcommon.BuiltInFunctionMultiESDTNFTTransfer, 0, 2+3*len(scnItems))
+}
+
+// C10T_ParserLedgerMultiSender2 (thorough only): two items with the full amount length set, no
+// attached call, the quick tier's other argument lengths.
+func C10T_ParserLedgerMultiSender2() {
+	o := plOpt
+	o.NoCall = true
+	o.Medium = true
+	o.MultiK = 2
 	s := scnMultiTransfer(o)
 	parserLedger(s, vmcommon.BuiltInFunctionMultiESDTNFTTransfer, 0, 2+3*len(scnItems))
 }
